@@ -88,7 +88,7 @@ func (m *sysMap) realName(id string) string {
 	if strings.HasPrefix(id, "al") {
 		return "alias/" + id
 	}
-	return "ext/" + id
+	return "ext/Vnd.Acme-" + id // upper-case letters are legal in a registered type string: Lookup is an exact match
 }
 
 // inputID recognises the abstract input from any non-empty prefix of its bytes.
